@@ -546,4 +546,227 @@ Proof.
   apply DInv_sound. exact HD.
 Qed.
 
+(** ** failing statements ([tf_bad]): where a failed command leaves the database *)
+Lemma one_file_any (t : list rev) k a has f fs o t1 fs1 es :
+  Inv t k a has -> normal k a has -> nth_error all k = Some f ->
+  execute f t fs = (o, t1, fs1, es) ->
+  t1 = tbl_of_events es t /\
+  (o = ODone -> Inv t1 (S k) 0 false /\ upto (pos k a) ++ journal es = upto (pos (S k) 0)).
+Proof.
+  intros HI Hnorm Hn EX.
+  assert ([f] = firstn (length [f]) (skipn k all)) as Hsl.
+  { simpl. rewrite (skipn_nth_cons all k f Hn). reflexivity. }
+  pose proof (exec_files_single hash hash_eqb HS f t fs) as Hs. rewrite EX in Hs.
+  destruct (exec_files_inv hash hash_eqb HS hash_eqb_spec all Hsorted [f] t fs o t1 fs1 es k a has HI Hnorm Hsl Hs)
+    as (Hp & _ & Ht).
+  split; [exact Ht|]. intros ->.
+  destruct (Hp es [] ltac:(rewrite app_nil_r; reflexivity)) as (k1 & a1 & has1 & e1 & H1 & H2 & _ & _ & H5).
+  destruct (H5 eq_refl) as [_ Hd].
+  destruct (Hd eq_refl ltac:(left; discriminate)) as (-> & -> & -> & ->).
+  rewrite <- Ht in H1. cbn [b2n] in H2. rewrite Nat.add_0_r in H2.
+  replace (k + length [f]) with (S k) in * by (simpl; lia). auto.
+Qed.
+
+Lemma wf_stmt_err (t : list rev) k a has f fs t1 fs1 es :
+  Inv t k a has -> normal k a has -> nth_error all k = Some f ->
+  execute f t fs = (OStmtErr, t1, fs1, es) -> wf es = 0.
+Proof.
+  intros HI Hnorm Hn EX.
+  destruct (Inv_pre hash HS all Hsorted t k a has f HI Hnorm Hn) as (r0 & Hpre & Htot & Ha).
+  destruct (execute_shape hash hash_eqb HS hash_eqb_spec f t r0 Hpre fs _ _ _ _ EX) as [Hsh _].
+  destruct Hsh as [Ho _ _|c ok3 _ Ho _ _|c s ok3 Hnth _ Hes _|c s _ Ho _ _];
+    try discriminate; [destruct ok3; discriminate|].
+  subst es. assert (r_applied r0 + c < length (f_stmts f)) as Hlt by (apply nth_error_Some; congruence).
+  rewrite shape_wf by lia. reflexivity.
+Qed.
+
+Lemma loop_file_any : forall tfiles (c : db) k,
+  Bd c k -> slice tfiles k ->
+  exists o c' tr, apply_loop TxFile tfiles c None = (o, c', None, tr) /\
+                  (exists j, Bd c' j) /\ (o = ADone -> Bd c' (k + length tfiles)).
+Proof.
+  induction tfiles as [|tf rest IH]; intros c k HB Hsl.
+  - exists ADone, c, []. split; [reflexivity|]. split; [eauto|]. intros _. rewrite Nat.add_0_r. exact HB.
+  - destruct (slice_cons tf rest k Hsl) as (Hnd & Hn & Hsl' & Hin).
+    pose proof HB as [HI Hj].
+    cbn [TxModel.apply_loop]. rewrite (mode_for_plain TxFile tf Hin).
+    destruct (execute (tf_file tf) (d_tbl c) _) as [[[o1 t1] fs1] es1] eqn:EX.
+    destruct (one_file_any (d_tbl c) k 0 false (tf_file tf) _ o1 t1 fs1 es1 HI ltac:(intros H; discriminate) Hn EX)
+      as (Ht1 & Hdone).
+    destruct (run_in_tx es1 c c) as [w1' tr1] eqn:R.
+    pose proof (run_in_tx_fst es1 c c) as Hf. rewrite R in Hf. simpl in Hf. subst w1'.
+    destruct o1;
+      try (eexists _, _, _; split; [reflexivity|]; split; [eauto|]; intros H; discriminate).
+    destruct (Hdone eq_refl) as [HI1 Hup].
+    assert (Bd (db_of_events es1 c) (S k)) as HB1.
+    { split; [rewrite db_of_events_tbl, <- Ht1; exact HI1|].
+      rewrite db_of_events_journal, Hj, <- map_app, Hup. reflexivity. }
+    destruct (IH (db_of_events es1 c) (S k) HB1 Hsl') as (o2 & c' & tr2 & Hloop & HBj & Hd).
+    rewrite Hloop. eexists _, _, _. split; [reflexivity|]. split; [exact HBj|].
+    intros Ho. replace (k + length (tf :: rest)) with (S k + length rest) by (simpl; lia). apply Hd. exact Ho.
+Qed.
+
+Lemma run_file_any (c : db) k n :
+  Bd c k -> exists o c1 tr, apply_run TxFile n dir c = (o, c1, tr) /\ exists j, Bd c1 j.
+Proof.
+  intros HB. pose proof HB as [HI _].
+  rewrite (apply_run_unfold TxFile n c k 0 false HI ltac:(intros H; discriminate)).
+  destruct (skipn k all) as [|f l] eqn:E; [eexists _, _, _; split; [reflexivity|eauto]|].
+  destruct (loop_file_any (dsl k n) c k HB (dsl_slice k n)) as (o & c' & tr & Hloop & HBj & _).
+  rewrite Hloop. destruct o; eexists _, _, _; (split; [reflexivity|exact HBj]).
+Qed.
+
+Lemma loop_none_any : forall tfiles (c : db) k a has J D,
+  Inv (d_tbl c) k a has -> normal k a has -> slice tfiles k ->
+  d_journal c = map snd J -> GInv (d_tbl c) J D ->
+  exists o c' tr, apply_loop TxNone tfiles c None = (o, c', None, tr) /\
+                  (o = ADone \/ o = AFail OStmtErr -> DInv c' D).
+Proof.
+  induction tfiles as [|tf rest IH]; intros c k a has J D HI Hnorm Hsl Hj HG.
+  - exists ADone, c, []. split; [reflexivity|]. intros _. exists J. auto.
+  - destruct (slice_cons tf rest k Hsl) as (Hnd & Hn & Hsl' & Hin).
+    cbn [TxModel.apply_loop]. rewrite (mode_for_plain TxNone tf Hin).
+    destruct (execute (tf_file tf) (d_tbl c) _) as [[[o1 t1] fs1] es1] eqn:EX.
+    destruct (one_file_any (d_tbl c) k a has (tf_file tf) _ o1 t1 fs1 es1 HI Hnorm Hn EX) as (Ht1 & Hdone).
+    (* this Execute is one ExecuteN with count 1 *)
+    pose proof (pending_inv hash HS all Hsorted Hnock the_cfg (d_tbl c) k a has the_cfg_ok HI Hnorm) as Hpend.
+    rewrite (skipn_nth_cons all k _ Hn) in Hpend. cbn [finish] in Hpend.
+    pose proof (execute_n_first_n hash hash_eqb HS the_cfg 1 all (d_tbl c)
+                  (bad_faults tf (stored_applied hash (d_tbl c) (f_version (tf_file tf)))) _ Hpend) as EXn.
+    cbn [Nat.ltb Nat.leb firstn] in EXn. rewrite exec_files_single, EX in EXn.
+    destruct (run_ginv hash hash_eqb HS hash_eqb_spec all Hsorted Hnock the_cfg 1 (d_tbl c) _ _ _ _ _ J D the_cfg_ok HG EXn)
+      as (G1 & _ & _ & _).
+    destruct (run_direct es1 c) as [c1' tr1] eqn:R.
+    destruct (run_direct_spec hash es1 c) as [Hf _]. rewrite R in Hf. simpl in Hf. subst c1'.
+    assert (d_journal (db_of_events es1 c) = map snd (J ++ journal es1)) as Hj1.
+    { rewrite db_of_events_journal, Hj, map_app. reflexivity. }
+    assert (d_tbl (db_of_events es1 c) = t1) as Et1 by (rewrite db_of_events_tbl; symmetry; exact Ht1).
+    destruct o1.
+    + (* file done *)
+      destruct (Hdone eq_refl) as [HI1 _].
+      assert (wf es1 = 0) as Hwf.
+      { apply all_ok_wf0. destruct (stop_on_fault_execute hash hash_eqb HS _ _ _ _ _ _ _ EX) as [_ Hok]. apply Hok. reflexivity. }
+      rewrite Hwf, Nat.add_0_r in G1.
+      destruct (IH (db_of_events es1 c) (S k) 0 false (J ++ journal es1) D
+                  ltac:(rewrite Et1; exact HI1) ltac:(intros H; discriminate) Hsl' Hj1 ltac:(rewrite Et1; exact G1))
+        as (o2 & c' & tr2 & Hloop & HD).
+      rewrite Hloop. eexists _, _, _. split; [reflexivity|exact HD].
+    + eexists _, _, _. split; [reflexivity|]. intros _.
+      rewrite (wf_stmt_err (d_tbl c) k a has (tf_file tf) _ _ _ _ HI Hnorm Hn EX), Nat.add_0_r in G1.
+      exists (J ++ journal es1). split; [exact Hj1|]. rewrite Et1. exact G1.
+    + eexists _, _, _. split; [reflexivity|]. intros [H|H]; discriminate.
+    + eexists _, _, _. split; [reflexivity|]. intros [H|H]; discriminate.
+    + eexists _, _, _. split; [reflexivity|]. intros [H|H]; discriminate.
+Qed.
+
+Lemma run_none_any (c : db) k n o c1 tr :
+  Bd c k -> apply_run TxNone n dir c = (o, c1, tr) ->
+  o = ADone \/ o = AFail OStmtErr -> DInv c1 0.
+Proof.
+  intros HB Hrun Ho. pose proof HB as [HI Hj].
+  rewrite (apply_run_unfold TxNone n c k 0 false HI ltac:(intros H; discriminate)) in Hrun.
+  destruct (skipn k all) as [|f l] eqn:E.
+  - inversion Hrun; subst. destruct Ho; discriminate.
+  - destruct (Bd_DInv c k HB) as (J & HJ & HG).
+    destruct (loop_none_any (dsl k n) c k 0 false J 0 HI ltac:(intros H; discriminate) (dsl_slice k n) HJ HG)
+      as (o' & c' & tr' & Hloop & HD).
+    rewrite Hloop in Hrun. destruct o'; inversion Hrun; subst; apply HD; exact Ho.
+Qed.
+
+(** The fixed directory: the same files without a failing statement. *)
+Definition fixed : list tfile := map (fun tf => mkTfile (tf_file tf) (tf_directive tf) None) dir.
+
+Lemma fixed_files : map tf_file fixed = all.
+Proof. unfold fixed, all. rewrite map_map. reflexivity. Qed.
+
+Lemma fixed_clean : clean fixed.
+Proof. intros f Hin. apply in_map_iff in Hin as (x & <- & _). reflexivity. Qed.
+
+Lemma fixed_no_directive : no_directive fixed.
+Proof. intros f Hin. apply in_map_iff in Hin as (x & <- & Hx). simpl. apply Hnodir. exact Hx. Qed.
+
 End Crash.
+
+(** ** C13: fixing the failing statement and re-running *)
+Section Fix.
+Variable hash : Type.
+Variable hash_eqb : hash -> hash -> bool.
+Variable HS : bytes -> hash.
+Hypothesis hash_eqb_spec : forall a b, hash_eqb a b = true <-> a = b.
+Variable dir : list tfile.
+Hypothesis Hsorted : sorted_files (map tf_file dir).
+Hypothesis Hnock : forall f, In f (map tf_file dir) -> f_ckpt f = false.
+Hypothesis Hnodir : no_directive dir.
+
+Notation fdir := (fixed dir).
+Notation apply_run := (apply_run hash hash_eqb HS).
+
+Lemma Bd_fixed (c : db hash) k : Bd hash HS dir c k <-> Bd hash HS fdir c k.
+Proof. unfold Bd. rewrite (fixed_files dir). reflexivity. Qed.
+
+Lemma DInv_fixed (c : db hash) D : DInv hash HS dir c D <-> DInv hash HS fdir c D.
+Proof. unfold DInv. rewrite (fixed_files dir). reflexivity. Qed.
+
+Lemma completed_fixed (c : db hash) : completed hash dir c <-> completed hash fdir c.
+Proof. unfold completed. rewrite (fixed_files dir). reflexivity. Qed.
+
+Lemma fixed_sorted : sorted_files (map tf_file fdir).
+Proof. rewrite (fixed_files dir). exact Hsorted. Qed.
+Lemma fixed_nock : forall f, In f (map tf_file fdir) -> f_ckpt f = false.
+Proof. rewrite (fixed_files dir). exact Hnock. Qed.
+
+(** From any state a failed command can leave, the fixed directory completes. *)
+Lemma fixed_completes global (c : db hash) :
+  (match global with TxNone => DInv hash HS dir c 0 | _ => exists j, Bd hash HS dir c j end) ->
+  exists o2 c2 tr2, apply_run global 0 fdir c = (o2, c2, tr2) /\
+                    (o2 = ADone \/ o2 = APend PNoPending) /\ completed hash dir c2.
+Proof.
+  intros H. destruct global.
+  - apply DInv_fixed in H.
+    destruct (run_none_clean hash hash_eqb HS hash_eqb_spec fdir fixed_sorted fixed_nock (fixed_no_directive dir Hnodir)
+                c 0 0 (fixed_clean dir) H) as (o2 & c2 & tr2 & E & Ho & _ & Hfin & _).
+    exists o2, c2, tr2. split; [exact E|]. split; [exact Ho|].
+    destruct (Hfin eq_refl) as (J & Hj & (HI & d & Hst & Hd)).
+    assert (d = 0) as -> by lia. apply stutter_zero in Hst. subst J.
+    apply completed_fixed. split; [exact Hj|].
+    intros f Hin. apply In_nth_error in Hin as [i Hi].
+    assert (i < length (map tf_file fdir)) as Hlt by (apply nth_error_Some; congruence).
+    destruct HI as (_ & _ & Hrows & _). destruct (Hrows i f Hlt Hi) as (r & Hg & (_ & Hap & _) & Ht).
+    exists r. auto.
+  - destruct H as [j HB]. apply Bd_fixed in HB.
+    destruct (run_file_clean hash hash_eqb HS hash_eqb_spec fdir fixed_sorted fixed_nock (fixed_no_directive dir Hnodir)
+                c j 0 (fixed_clean dir) HB) as (o2 & c2 & tr2 & E & Ho & _ & Hfin & _).
+    exists o2, c2, tr2. split; [exact E|]. split; [exact Ho|].
+    apply completed_fixed. apply (Bd_final hash HS fdir). apply Hfin. reflexivity.
+  - destruct H as [j HB]. apply Bd_fixed in HB.
+    destruct (run_all_clean hash hash_eqb HS hash_eqb_spec fdir fixed_sorted fixed_nock (fixed_no_directive dir Hnodir)
+                c j 0 (fixed_clean dir) HB) as (o2 & c2 & tr2 & E & Ho & _ & Hfin).
+    exists o2, c2, tr2. split; [exact E|]. split; [exact Ho|].
+    apply completed_fixed. apply (Bd_final hash HS fdir). apply Hfin. reflexivity.
+Qed.
+
+Lemma fix_rerun_lemma global (c0 : db hash) k0 n o c1 tr :
+  Bd hash HS dir c0 k0 ->
+  apply_run global n dir c0 = (o, c1, tr) -> o = AFail OStmtErr ->
+  exists o2 c2 tr2 o3 c3 tr3,
+    apply_run global 0 fdir c1 = (o2, c2, tr2) /\ (o2 = ADone \/ o2 = APend PNoPending) /\
+    apply_run global 0 fdir c0 = (o3, c3, tr3) /\ (o3 = ADone \/ o3 = APend PNoPending) /\
+    completed hash dir c2 /\ completed hash dir c3 /\ d_journal c2 = d_journal c3.
+Proof.
+  intros HB Hrun Ho.
+  assert (match global with TxNone => DInv hash HS dir c1 0 | _ => exists j, Bd hash HS dir c1 j end) as H1.
+  { destruct global.
+    - apply (run_none_any hash hash_eqb HS hash_eqb_spec dir Hsorted Hnock Hnodir c0 k0 n o c1 tr HB Hrun). right. exact Ho.
+    - destruct (run_file_any hash hash_eqb HS hash_eqb_spec dir Hsorted Hnock Hnodir c0 k0 n HB) as (o' & c1' & tr' & E & Hj).
+      rewrite E in Hrun. inversion Hrun; subst. exact Hj.
+    - destruct (apply_run_all_atomic hash hash_eqb HS n dir c0 o c1 tr Hrun) as [Hc _].
+      rewrite Hc by (rewrite Ho; discriminate). eauto. }
+  assert (match global with TxNone => DInv hash HS dir c0 0 | _ => exists j, Bd hash HS dir c0 j end) as H0.
+  { destruct global; eauto. eapply Bd_DInv; eauto. }
+  destruct (fixed_completes global c1 H1) as (o2 & c2 & tr2 & E2 & Ho2 & Hc2).
+  destruct (fixed_completes global c0 H0) as (o3 & c3 & tr3 & E3 & Ho3 & Hc3).
+  exists o2, c2, tr2, o3, c3, tr3. repeat (split; [assumption|]).
+  destruct Hc2 as [-> _]. destruct Hc3 as [-> _]. reflexivity.
+Qed.
+
+End Fix.
